@@ -482,6 +482,7 @@ func gen(c *harness.C) []harness.Case {
 		cells = append(cells, cell{n: 7, t: 7, l: 1}, cell{n: 8, t: 7, l: 1}, cell{n: 8, t: 8, l: 1}, cell{n: 9, t: 9, l: 1})
 	}
 	var cases []harness.Case
+	cases = append(cases, sameRequestCase(1), sameRequestCase(2), sameRequestCase(3))
 	for _, k := range cells {
 		cases = append(cases, syncCase(k, c.Thorough()))
 	}
